@@ -68,7 +68,7 @@ add('s_iter', 'iter_default', ['C08'], U(0, 2), qn=[1], tn=[])
 
 # ---------------------------------------------------------------- drain (s_drain)
 add('s_drain', 'drain', ['C01', 'C03', 'C09', 'C11', 'C20'], U(1, 4))
-add('s_drain', 'drain_adaptors', ['C03', 'C09'], U(1, 4), qn=[0, 1, 2, 3], tn=[4, 5])
+add('s_drain', 'drain_adaptors', ['C03', 'C09'], lambda n, k: n + 4, pairs=([(n, k) for n in (1, 2, 3) for k in range(4)], [(4, k) for k in range(4)]))
 add('s_drain', 'drain_forget', ['C10'], U(1, 4))
 add('s_drain', 'drain_forget_plain', ['C10'], U(1, 4))
 add('s_drain', 'drain_debug', ['C09'], U(1, 4), qn=[0, 1, 3], tn=[4])
